@@ -4,7 +4,7 @@ use core::{
 };
 
 use dashu_base::{
-    Approximation::*, BitTest, ConversionError, DivRemEuclid, EstimatedLog2, FloatEncoding, Sign,
+    Approximation::*, BitTest, ConversionError, DivRem, DivRemEuclid, EstimatedLog2, FloatEncoding, Sign,
     Signed,
 };
 use dashu_int::{IBig, UBig, Word};
@@ -481,28 +481,43 @@ impl<R: Round, const B: Word> FBig<R, B> {
 }
 
 impl<R: Round> Context<R> {
-    // Convert the finite [Repr] from base B to base 2 with at most `precision` bits in the result and a single
-    // rounding: `convert_base` can return one digit more than the precision, which would have to be rounded again.
-    // The number is first converted with truncation and a few guard bits, a sticky bit below them records
-    // whether anything was cut off, then the only rounding to the context precision happens.
+    // Convert the finite [Repr] from base B to base 2 with at most `precision` bits in the result and a single,
+    // correct rounding. It is used by the conversion to f32 and f64: `convert_base` can return one digit more than
+    // the precision and is only approximate for large exponents, so the result would have to be rounded again.
+    // Here the value significand * B^exponent is divided out exactly with a few guard bits, a sticky bit below
+    // them records a non-zero remainder, then the only rounding to the context precision happens.
     fn convert_to_binary_once<const B: Word>(&self, repr: Repr<B>) -> Rounded<Repr<2>> {
         debug_assert!(self.precision > 0 && repr.is_finite());
-        let wide_precision = self.precision + 2;
-        let wide: Rounded<Repr<2>> = Context::<Zero>::new(wide_precision).convert_base(repr);
-        let sticky = matches!(wide, Inexact(_, _));
-        let Repr {
-            mut significand,
-            mut exponent,
-        } = wide.value();
-        if sticky {
-            // put the sticky bit below the position where the conversion was truncated
-            let pad = wide_precision.saturating_sub(significand.bit_len()) + 1;
-            let sign = significand.sign();
-            significand <<= pad;
-            significand += sign * IBig::ONE;
-            exponent -= pad as isize;
+        if repr.significand.is_zero() {
+            return Exact(Repr::zero());
         }
-        self.repr_round(Repr::new(significand, exponent))
+
+        // numbers far outside of the range of f32 and f64 don't need the digits (and the power could be huge)
+        const FAR: isize = 4096;
+        let (log2_lb, log2_ub) = repr.log2_bounds();
+        let (sign, magnitude) = repr.significand.into_parts();
+        if log2_lb > FAR as f32 || log2_ub < -FAR as f32 {
+            let exponent = if log2_lb > 0. { FAR } else { -FAR };
+            let significand = sign * IBig::ONE;
+            return Inexact(Repr { significand, exponent }, Rounding::NoOp);
+        }
+
+        // |value| = num / den
+        let (mut num, den) = if repr.exponent >= 0 {
+            let pow = UBig::from_word(B).pow(repr.exponent as usize);
+            (magnitude * pow, UBig::ONE)
+        } else {
+            let pow = UBig::from_word(B).pow((-repr.exponent) as usize);
+            (magnitude, pow)
+        };
+
+        // the quotient gets at least two bits more than the precision
+        let shift = (self.precision + 2 + den.bit_len()).saturating_sub(num.bit_len());
+        num <<= shift;
+        let (q, r) = num.div_rem(&den);
+        let sticky = !r.is_zero();
+        let significand = sign * IBig::from((q << 1) + UBig::from(sticky as u8));
+        self.repr_round(Repr::new(significand, -(shift as isize) - 1))
     }
 
     // Convert the [Repr] from base B to base NewB, with the precision under the target base from this context.
